@@ -368,6 +368,6 @@ MANIFEST_ENTRY = {
              "control skeletons up to a node bound) are compiled by the real compiler at several versions and in both modes, the "
              "emitted TEAL is executed on the reference AVM for several transaction contexts each, and verdict, return value, ordered "
              "log/state/inner-transaction trace and user-numbered slots are compared with a direct evaluation of the recipe that never "
-             "saw the compiler. Held = held on the executions listed."),
+             "saw the compiler. Held = held on the executions listed. Since round 4 the same recipes are also compiled with the scratch-slot optimisation on (as a user gets it by default from v9) and with assembled constants over str literals; routines that begin with a loop or conditional and MultiValue operators (Python-integer oracle) have their own families; the one known optimiser defect is attributed by mechanism and counterfactual."),
     "note": "Trusted: vlib/refeval.py (source semantics), vlib/avm.py + prims.py (calibrated on golden programs). Opcode budget not modelled.",
 }
